@@ -40,9 +40,110 @@ def models(tier):
     return out
 
 
+# ------------------------------------------------------------------ E4: handshake message vs the event that ends the connection
+SCHED_VARIANTS = ("cer-at-cer-timeout", "cea-at-cea-timeout", "cer-then-eof", "second-cer-of-connected-peer")
+
+
+def sched_execute(variant, prefix):
+    """A handshake message is handled by the connection's reader thread while, in the same instant, the I/O thread ends
+    the connection (capabilities-exchange timeout found by the timer check, or the peer's close).  Every interleaving
+    (bounded) at line granularity in the handlers and in the close path, then the table invariant at quiescence and after
+    each of 3 further seconds."""
+    from .. import scenario, scheddfs, simkernel as sk
+    import diameter.node.node as nn
+    import diameter.node.peer as pp
+    sk.install()
+    pts = {}
+    for name in ("receive_cer", "receive_cea", "_check_timers", "close_connection_socket", "remove_peer_connection", "_flag_connection_as_ready",
+                 "_flag_peer_as_connected", "_assign_peer_connection", "_receive_message"):
+        if hasattr(nn.Node, name):
+            pts[sk.code_of(nn.Node, name)] = None
+    if hasattr(pp.PeerConnection, "close"):
+        pts[sk.code_of(pp.PeerConnection, "close")] = None
+    sk.set_line_points(pts)
+    ch = scheddfs.Chooser(prefix)
+    cfg = copy.deepcopy(BASE)
+    cfg["node"]["wakeup"] = 6       # no timer check between the set-up and the racing instant
+    start_plan = None
+    if variant == "cea-at-cea-timeout":
+        cfg["peers"][0].update({"ips": ["10.1.0.1"], "persistent": True, "reconnect_wait": 30})
+        start_plan = ["ok"]
+    sc = scenario.Scenario(cfg, chooser=ch, max_socks=3, start_plan=start_plan)
+    try:
+        nw = sc.start()
+        mons = [m(sc) for m in MONS]
+        vs = []
+
+        def step(ev):
+            ok = sc.apply(ev)
+            for m in mons:
+                vs.extend(m.step())
+            return ok
+        if variant == "cer-at-cer-timeout":
+            step(("accept",))
+            nw.world.jump(3)
+            racing = [("m", 0, "cer_p0")]
+        elif variant == "cea-at-cea-timeout":
+            nw.world.jump(3)
+            racing = [("m", 0, "cea_ok")]
+        elif variant == "cer-then-eof":
+            step(("accept",))
+            racing = [("b", 0, "cer_p0", "EOF")]
+        else:
+            step(("accept",))
+            step(("m", 0, "cer_p0"))
+            step(("accept",))
+            racing = [("b2", 0, 1)]
+        nw.world.points_on = True
+        ch.window = True
+        for ev in racing:
+            if ev[0] == "b" and ev[3] == "EOF":
+                s = sc.sock(ev[1])
+                nw.deliver(s.fs, sc.message(s, ev[2]), run=False)
+                s.env_closed = True
+                nw.eof(s.fs)
+                sc.sync()
+            elif ev[0] == "b2":
+                s0, s1 = sc.sock(0), sc.sock(1)
+                s0.env_closed = True
+                nw.eof(s0.fs, run=False)
+                nw.deliver(s1.fs, sc.message(s1, "cer_p0"))
+                sc.sync()
+            else:
+                sc.apply(ev)
+            for m in mons:
+                vs.extend(m.step())
+        ch.window = False
+        nw.world.points_on = False
+        for _ in range(3):
+            step(("tick", 1))
+        obs = (variant, tuple(sorted(set(k for k, d in vs))), tuple(s.fs.closed for s in sc.socks),
+               tuple(sorted((p.node_name, p.connection is not None) for p in nw.node.peers.values())), tuple(nw.thread_failures()))
+        return (obs, tuple(vs)), ch
+    finally:
+        sc.close()
+
+
+def sched_check(obs_vs):
+    obs, vs = obs_vs
+    return [(k + ":under-some-schedule", d) for k, d in vs]
+
+
 def run(tier):
     rep = Report("C13", tier, "model_checking")
     common.pool()
+    import functools
+    from .. import scheddfs
+    bound = 2 if tier == "thorough" else 1
+    sched = 0
+    tasks = [(functools.partial(sched_execute, v), sched_check, bound) for v in SCHED_VARIANTS]
+    for v, r in zip(SCHED_VARIANTS, scheddfs.explore_many(tasks)):
+        sched += r["executions"]
+        for (key, detail), choices in r["violations"]:
+            rep.add(Violation(key, f"[{v}, bound {bound}] choices {choices}: {detail}", {"sched": v, "choices": choices}))
+        rep.sample({"schedule_exploration": f"{v}: reader thread handling the message vs I/O thread ending the connection, line granularity",
+                    "preemption_bound": bound, "executions": r["executions"], "distinct_outcomes": len(r["outcomes"]), "branching_points": r["max_points"]})
+    rep.cov["schedules"] = sched
     depth = 7 if tier == "thorough" else 5
     tot = monitors.run_models(rep, models(tier), depth, dedup_depth_plain=depth - 2, time_cap=1500 if tier == "thorough" else 110)
     rep.cov.update({"states": tot["states"], "transitions": tot["transitions"], "traces_validated_against_impl": tot["transitions"] + tot["plain_transitions"],
@@ -55,6 +156,11 @@ def run(tier):
 
 
 def replay(case):
+    if "sched" in case:
+        import functools
+        from .. import scheddfs
+        obs_vs, ch = scheddfs.replay_choices(functools.partial(sched_execute, case["sched"]), case["choices"])
+        return [Violation(k, d) for k, d in sched_check(obs_vs)]
     hist = tuple(tuple(e) for e in case["history"])
     for m in models("thorough"):
         if m.name == case["model"]:
